@@ -16,6 +16,7 @@ import (
 	"context"
 	"fmt"
 	"math/rand"
+	netmail "net/mail"
 	"strings"
 	"time"
 
@@ -522,6 +523,155 @@ func runSMTPSeq(r *hx.Run, c hx.Case) {
 	}
 }
 
+// runEnvSeq: recipients built up by several calls on one header (Set, then Add / AddFormat), then sent through
+// the real client.  Oracle only: the harness keeps, from the ORIGINAL call arguments (independent RFC 5322
+// reader) and the reference semantics Set replaces / Add appends, the mailboxes of To, Cc, Bcc; every RCPT line
+// must parse (strict RFC 5321 parser) to exactly the mailbox the introducing call set, byte for byte, in order.
+// Case: caps, steps "To/<hex>/<hex>,AddTo/<hex>,AddToFormat/<hexname>/<hexaddr>,..." (From is fixed).
+func runEnvSeq(r *hx.Run, c hx.Case) {
+	if len(c.Args) < 2 {
+		r.AddOracleOnly(c, false)
+		return
+	}
+	caps := c.Args[0]
+	m := mail.NewMsg()
+	_ = m.From("sender@origin.test")
+	want := map[string][]addrx.Mailbox{}
+	tainted := map[string]bool{}
+	known := true
+	for i, st := range strings.Split(c.Args[1], ",") {
+		f := strings.Split(st, "/")
+		var a []string
+		for _, x := range f[1:] {
+			a = append(a, string(hx.UnHex(x)))
+		}
+		name := f[0]
+		var err error
+		var vals []string
+		slot := strings.TrimSuffix(strings.TrimPrefix(name, "Add"), "Format")
+		switch {
+		case name == "To":
+			err, vals = m.To(a...), a
+		case name == "Cc":
+			err, vals = m.Cc(a...), a
+		case name == "Bcc":
+			err, vals = m.Bcc(a...), a
+		case name == "AddTo" && len(a) == 1:
+			err, vals = m.AddTo(a[0]), a
+		case name == "AddCc" && len(a) == 1:
+			err, vals = m.AddCc(a[0]), a
+		case name == "AddBcc" && len(a) == 1:
+			err, vals = m.AddBcc(a[0]), a
+		case name == "AddToFormat" && len(a) == 2:
+			err, vals = m.AddToFormat(a[0], a[1]), []string{"<" + a[1] + ">"}
+		case name == "AddCcFormat" && len(a) == 2:
+			err, vals = m.AddCcFormat(a[0], a[1]), []string{"<" + a[1] + ">"}
+		case name == "AddBccFormat" && len(a) == 2:
+			err, vals = m.AddBccFormat(a[0], a[1]), []string{"<" + a[1] + ">"}
+		default:
+			r.AddOracleOnly(c, false)
+			return
+		}
+		var l []addrx.Mailbox
+		readable := true
+		for _, v := range vals {
+			mb, ok := addrx.IntendedMailbox(v)
+			if _, perr := netmail.ParseAddress(v); !ok || perr != nil {
+				readable = false // the argument by itself is no address for the reader or for net/mail
+			}
+			l = append(l, mb)
+		}
+		for _, v := range a {
+			// net/mail cannot re-read its own rendering of such a display name (known finding of C02 / C06,
+			// dispname-backslash-q-encoded-word): a later Add on that header fails for that reason, not judged here
+			if n, ok := addrx.IntendedName(v); ok && addrx.QBackslashName(n) || addrx.QBackslashName(v) {
+				tainted[slot] = true
+			}
+		}
+		if err != nil {
+			// a call whose arguments are all well-formed addresses must not fail because of what is already stored
+			if tainted[slot] {
+				r.Dist["envseq:add-failed-after-q-backslash-name"]++
+			} else if readable && strings.HasPrefix(name, "Add") {
+				r.Fail(c.ID, "add-rejects-valid-address", fmt.Sprintf("step %d %s(%q) failed: %v", i, name, a, err))
+			}
+			continue
+		}
+		if !readable {
+			known = false
+			continue
+		}
+		if strings.HasPrefix(name, "Add") {
+			want[slot] = append(want[slot], l...)
+		} else {
+			want[slot] = l
+		}
+	}
+	m.Subject("s")
+	m.SetBodyString(mail.TypeTextPlain, "body")
+	srv := serverFor(caps)
+	d := &smtpx.Dialer{Srv: srv}
+	cl, err := mail.NewClient("mx.verif.test", mail.WithTLSPolicy(mail.NoTLS), mail.WithHELO("client.verif.test"),
+		mail.WithDialContextFunc(d.Dial), mail.WithTimeout(5*time.Second))
+	if err != nil {
+		r.AddOracleOnly(c, false)
+		return
+	}
+	ctx, cancel := context.WithTimeout(context.Background(), 10*time.Second)
+	sendErr := cl.DialAndSendWithContext(ctx, m)
+	cancel()
+	if d.Dials > 0 {
+		srv.Finish(2 * time.Second)
+	}
+	trace, _ := srv.Snapshot()
+	r.AddOracleOnly(c, true)
+	checkLines(r, c.ID, trace)
+	if !known {
+		r.Dist["envseq:not-readable"]++
+		return
+	}
+	var exp []addrx.Mailbox
+	for _, k := range []string{"To", "Cc", "Bcc"} {
+		exp = append(exp, want[k]...)
+	}
+	var got []string
+	u8 := false
+	for _, e := range trace {
+		if e.Verb == "MAIL" {
+			u8 = strings.Contains(strings.ToUpper(e.Line), " SMTPUTF8")
+		}
+		if e.Verb != "RCPT" {
+			continue
+		}
+		pl, err := addrx.ParsePathLine(e.Line, u8)
+		if err != nil {
+			r.Fail(c.ID, "unquoted-local-part", fmt.Sprintf("%q: %v", e.Line, err))
+			return
+		}
+		got = append(got, pl.Box.String())
+	}
+	if len(got) == 0 {
+		refusable := len(exp) == 0
+		for _, mb := range exp {
+			if !addrx.Representable(mb.Local) {
+				refusable = true
+			}
+		}
+		if !refusable {
+			r.Fail(c.ID, "envelope-refused", fmt.Sprintf("no RCPT line although every recipient can be transmitted: %v", sendErr))
+		}
+		r.Dist["envseq:refused"]++
+		return
+	}
+	var es []string
+	for _, mb := range exp {
+		es = append(es, mb.String())
+	}
+	if strings.Join(got, "\x00") != strings.Join(es, "\x00") {
+		r.Fail(c.ID, "rcpt-not-the-mailbox-that-was-set", fmt.Sprintf("RCPT lines denote %q, the calls set %q", got, es))
+	}
+}
+
 func runCase(r *hx.Run, c hx.Case) {
 	defer func() {
 		if p := recover(); p != nil {
@@ -538,6 +688,8 @@ func runCase(r *hx.Run, c hx.Case) {
 		runAuth(r, c)
 	case "smtpseq":
 		runSMTPSeq(r, c)
+	case "envseq":
+		runEnvSeq(r, c)
 	default:
 		r.Add(c, "BAD-CASE", false)
 	}
@@ -639,6 +791,54 @@ func Run(r *hx.Run, replay []hx.Case) {
 	for _, n := range heloNames {
 		runCase(r, heloCase(r, n, false))
 		runCase(r, heloCase(r, n, true))
+	}
+	// recipients added in two and three steps on one header; the first entry has no display name and a local part
+	// that needs quoting (it is re-serialised and re-parsed by every following Add)
+	step := func(name string, args ...string) string {
+		parts := []string{name}
+		for _, a := range args {
+			parts = append(parts, hx.Hex([]byte(a)))
+		}
+		return strings.Join(parts, "/")
+	}
+	seqRng := rand.New(rand.NewSource(r.Seed))
+	for i, l := range addrx.QuoteNeedLocals {
+		slot := []string{"To", "Cc", "Bcc"}[i%3]
+		q := addrx.RenderLocal(seqRng, l)
+		two := []string{step(slot, q+"@example.com"), step("Add"+slot, "admin@example.com")}
+		three := []string{step(slot, "<"+q+"@example.com>", "plain@x.test"), step("Add"+slot+"Format", "Second Name", "second@x.test"), step("Add"+slot, q+"@third.example.com"), step("Add"+slot, "last@x.test")}
+		runCase(r, hx.Case{ID: r.NewID(), Kind: "envseq", Args: []string{"110", strings.Join(two, ",")}})
+		runCase(r, hx.Case{ID: r.NewID(), Kind: "envseq", Args: []string{"010", strings.Join(three, ",")}})
+	}
+	nseq := 300
+	if r.Tier == "thorough" {
+		nseq = 8000
+	}
+	for i := 0; i < nseq && !r.Expired(); i++ {
+		var steps []string
+		for _, slot := range []string{"To", "Cc", "Bcc"} {
+			if rng.Intn(2) == 0 && !(slot == "Bcc" && len(steps) == 0) {
+				continue
+			}
+			var first []string
+			for j := 0; j < 1+rng.Intn(2); j++ {
+				mb, _ := addrx.GenMailbox(rng, true)
+				if rng.Intn(2) == 0 {
+					mb.Local = addrx.QuoteNeedLocals[rng.Intn(len(addrx.QuoteNeedLocals))]
+				}
+				first = append(first, addrx.BareAddrSpec(rng, mb))
+			}
+			steps = append(steps, step(slot, first...))
+			for j := 0; j < 1+rng.Intn(2); j++ {
+				mb, _ := addrx.GenMailbox(rng, true)
+				if rng.Intn(3) == 0 {
+					steps = append(steps, step("Add"+slot+"Format", "N "+fmt.Sprint(i), addrx.RenderLocal(rng, mb.Local)+"@"+mb.Domain))
+				} else {
+					steps = append(steps, step("Add"+slot, genAddr(r, rng, true)))
+				}
+			}
+		}
+		runCase(r, hx.Case{ID: r.NewID(), Kind: "envseq", Args: []string{"110", strings.Join(steps, ",")}})
 	}
 	// direct smtp.Client sessions: Hello(name) -> error or nil, then the client goes on
 	for _, n := range append([]string{"x\r\nMAIL FROM:<evil@x>", "x extra", "x\nNOOP", "ok.name.test"}, heloNames...) {
